@@ -2,6 +2,7 @@ package rcall
 
 import (
 	"github.com/modernizing/coca/pkg/domain/core_domain"
+	"strings"
 )
 
 type RCallGraph struct {
@@ -88,7 +89,7 @@ func (c RCallGraph) buildRCallChain(funcName string, methodMap map[string][]stri
 				lastChild = child
 				arrayResult = arrayResult + c.buildRCallChain(child, methodMap)
 			}
-			newCall := "\"" + child + "\" -> \"" + funcName + "\";\n"
+			newCall := "\"" + escapeStr(child) + "\" -> \"" + escapeStr(funcName) + "\";\n"
 			arrayResult = arrayResult + newCall
 		}
 
@@ -96,4 +97,8 @@ func (c RCallGraph) buildRCallChain(funcName string, methodMap map[string][]stri
 
 	}
 	return "\n"
+}
+
+func escapeStr(name string) string {
+	return strings.ReplaceAll(name, "\"", "\\\"")
 }
